@@ -124,6 +124,49 @@ def cases(tier):
         sp = f"@guppy\ndef choose(x: {t}, y: {t}) -> {t}:\n    if {bval}:\n        return x\n    return y\n"
         out.append((f"bool-const+type[{bval},{t},{order}]", g, sp, [f'result("c", choose({args_g}))'],
                     [f'result("c", choose(a, {lit(t, 1)}))'], f"a: {t}", [(t,)]))
+    # --- T11 every order of monomorphised (float const) and kept-generic (nat const) parameters, every
+    #         returned parameter, every combination of EQUAL / different arguments
+    maxk = 3 if tier == "quick" else 4
+    for k in range(2, maxk + 1):
+        for kinds in itertools.product("fn", repeat=k):
+            if "n" not in kinds:
+                continue
+            names = [("a%d" % i if kd == "f" else "n%d" % i) for i, kd in enumerate(kinds)]
+            hdr = ", ".join(f"{nm}: {'float' if kd == 'f' else 'nat'}" for nm, kd in zip(names, kinds))
+            for ret_i, (nm, kd) in enumerate(zip(names, kinds)):
+                rty = "float" if kd == "f" else "nat"
+                g = f"@guppy\ndef pick[{hdr}]() -> {rty}:\n    return {nm}\n"
+                fdoms = [(1.5, 2.5)] * kinds.count("f")
+                ndoms = [(3, 5)] * kinds.count("n")
+                body_g, sp_defs, body_s = [], [], []
+                for ci, (fv, nv) in enumerate(itertools.product(itertools.product(*fdoms), itertools.product(*ndoms))):
+                    fv, nv = list(fv), list(nv)
+                    vals = [(fv.pop(0) if kd2 == "f" else nv.pop(0)) for kd2 in kinds]
+                    args = ", ".join(repr(v) for v in vals)
+                    lit_ret = repr(vals[ret_i]) if kd == "f" else f"nat({vals[ret_i]})"
+                    body_g.append(f'result("c{ci}", pick[{args}]())')
+                    sp_defs.append(f"@guppy\ndef pick{ci}() -> {rty}:\n    return {lit_ret}\n")
+                    body_s.append(f'result("c{ci}", pick{ci}())')
+                out.append((f"const-param-orders[{''.join(kinds)},ret{ret_i}]", g, "\n".join(sp_defs), body_g, body_s, "z: int", [("int",)]))
+    # --- T12 comptime argument of a generic type next to kept-generic type parameters, all positions,
+    #         equal and different instantiations
+    tv = "S = guppy.type_var(\"S\", copyable=True, droppable=True)\nT2 = guppy.type_var(\"T2\", copyable=True, droppable=True)\n\n"
+    val = {"int": ("3", "4"), "float": ("1.5", "2.5")}
+    for order in ("ct-first", "ct-last", "ct-middle"):
+        for tt, ss in itertools.product(["int", "float"], repeat=2):
+            if order == "ct-first":
+                sig, call, spsig, spcall = "(x: T2 @comptime, y: S) -> S", f"pk({val[tt][0]}, {val[ss][1]})", f"(y: {ss}) -> {ss}", f"pk({val[ss][1]})"
+                ret = "y"
+            elif order == "ct-last":
+                sig, call, spsig, spcall = "(y: S, x: T2 @comptime) -> S", f"pk({val[ss][1]}, {val[tt][0]})", f"(y: {ss}) -> {ss}", f"pk({val[ss][1]})"
+                ret = "y"
+            else:
+                sig, call = "(y: S, x: T2 @comptime, w: S) -> S", f"pk({val[ss][1]}, {val[tt][0]}, {val[ss][0]})"
+                spsig, spcall = f"(y: {ss}, w: {ss}) -> {ss}", f"pk({val[ss][1]}, {val[ss][0]})"
+                ret = "w"
+            g = tv + f"@guppy\ndef pk{sig}:\n    return {ret}\n"
+            sp = f"@guppy\ndef pk{spsig}:\n    return {ret}\n"
+            out.append((f"comptime-generic-arg[{order},{tt},{ss}]", g, sp, [f'result("r", {call})'], [f'result("r", {spcall})'], "z: int", [("int",)]))
     # --- T10 generic calls generic with different parameter order
     for t, n in itertools.product(["int", "float"], [1, 3]):
         g = ("@guppy\ndef inner[n: nat, T: Copy](xs: array[T, n], i: int) -> T:\n    return xs[i]\n\n"
